@@ -121,8 +121,9 @@ TNext == /\ l <= Len(TraceLog)
          /\ LET e == TraceLog[l]  bad == Clauses(e) IN
               IF bad # {} THEN TLCSet(1, TLCGet(1) \cup {<<e.tid, l, c>> : c \in bad}) ELSE TRUE
          /\ l' = l + 1
-         /\ UNCHANGED <<rx, obs>>
-TSpec == TInit /\ rx = [kind |-> "none"] /\ obs = None /\ [][TNext]_<<l, rx, obs>>
+         /\ UNCHANGED <<rx, obs, flag, edits>>
+TSpec == TInit /\ rx = [kind |-> "none"] /\ obs = None /\ flag = FALSE /\ edits = 0
+         /\ [][TNext]_<<l, rx, obs, flag, edits>>
 Post == /\ PrintT(<<"FAILS", TLCGet(1)>>)
         /\ PrintT(<<"CONSUMED", TLCGet("stats").diameter - 1>>)
 =============================================================================
